@@ -1,9 +1,11 @@
 package main
 
 import (
+	"fmt"
 	"go/token"
 	"go/types"
 	"math"
+	"os"
 
 	"golang.org/x/tools/go/ssa"
 )
@@ -183,6 +185,12 @@ func (d *decodeCtx) exprEq(a, b ssa.Value) bool {
 		if !ok || x.Op != y.Op {
 			return false
 		}
+		// arithmetic in a narrow type wraps: uint8(a)+2 and uint(a)+2 differ for a >= 254.  Two
+		// operations denote the same number when they are carried out in the same type, or both in
+		// a type at least 32 bits wide (lengths stay far below 2^31: stated assumption)
+		if !types.Identical(x.Type(), y.Type()) && !(wideInt(x.Type()) && wideInt(y.Type())) {
+			return false
+		}
 		if d.exprEq(x.X, y.X) && d.exprEq(x.Y, y.Y) {
 			return true
 		}
@@ -352,7 +360,8 @@ func (d *decodeCtx) lb(v ssa.Value, b *ssa.BasicBlock, depth int) int64 {
 	}
 	switch x := stripIntConv(v).(type) {
 	case *ssa.BinOp:
-		if x.Op == token.ADD {
+		if x.Op == token.ADD && wideInt(x.Type()) {
+			// (a sum in an 8- or 16-bit type can wrap below its operands)
 			l, r := d.lb(x.X, b, depth+1), d.lb(x.Y, b, depth+1)
 			if l > math.MinInt64 && r > math.MinInt64 {
 				up(l + r)
@@ -490,6 +499,9 @@ func (d *decodeCtx) LE(v ssa.Value, b *ssa.BasicBlock) bool {
 	}
 	d.memo[key] = 1
 	ok := d.le(v, b)
+	if os.Getenv("KX_DEBUG_LE") != "" {
+		fmt.Fprintf(os.Stderr, "LE %s %T %v @b%d of %s => %v\n", v.Name(), v, v, b.Index, b.Parent().Name(), ok)
+	}
 	if ok {
 		d.memo[key] = 2
 	} else {
@@ -528,7 +540,7 @@ func (d *decodeCtx) le(v ssa.Value, b *ssa.BasicBlock) bool {
 	}
 	switch x := sv.(type) {
 	case *ssa.BinOp:
-		if x.Op == token.ADD {
+		if x.Op == token.ADD && wideInt(x.Type()) {
 			for _, pr := range [][2]ssa.Value{{x.X, x.Y}, {x.Y, x.X}} {
 				a, r := pr[0], pr[1]
 				if off, ok := d.consumed(r, b); ok && off != nil && d.exprEq(off, a) && d.LE(a, b) {
@@ -548,6 +560,11 @@ func (d *decodeCtx) le(v ssa.Value, b *ssa.BasicBlock) bool {
 	case *ssa.UnOp:
 		if x.Op == token.MUL {
 			vals := loadValues(x)
+			if os.Getenv("KX_DEBUG_LE") != "" {
+				for _, lv := range vals {
+					fmt.Fprintf(os.Stderr, "  loadValues(%s) -> %T %v\n", x.Name(), lv, lv)
+				}
+			}
 			if len(vals) >= 1 && !(len(vals) == 1 && vals[0] == ssa.Value(x)) {
 				for _, lv := range vals {
 					if !d.LE(lv, b) {
@@ -611,7 +628,7 @@ func (d *decodeCtx) LEQ(a, bb ssa.Value, blk *ssa.BasicBlock) bool {
 		return true
 	}
 	sb := stripIntConv(bb)
-	if bo, ok := sb.(*ssa.BinOp); ok && bo.Op == token.ADD {
+	if bo, ok := sb.(*ssa.BinOp); ok && bo.Op == token.ADD && wideInt(bo.Type()) {
 		for _, pr := range [][2]ssa.Value{{bo.X, bo.Y}, {bo.Y, bo.X}} {
 			x, y := pr[0], pr[1]
 			if d.exprEq(a, x) && nonNeg(y) {
@@ -691,4 +708,11 @@ func loadsAfterAllWrites(cell *ssa.Alloc, l1, l2 ssa.Instruction) bool {
 		}
 	}
 	return true
+}
+
+// wideInt: an integer type of at least 32 bits (arithmetic on lengths and
+// offsets in such a type is assumed not to overflow).
+func wideInt(t types.Type) bool {
+	w, _, ok := typeWidth(t, "386")
+	return ok && w >= 32
 }
